@@ -54,6 +54,12 @@ Ltac dmatch :=
 
 Ltac scbn := cbn [set fst snd batches updates groups ancestors marks jobs parents user_res cancellable staging attempts insts
                   attempt_res agg_job agg_group agg_bp agg_date next_batch].
+Tactic Notation "scbn" "in" hyp(H) :=
+  cbn [set fst snd batches updates groups ancestors marks jobs parents user_res cancellable staging attempts insts
+       attempt_res agg_job agg_group agg_bp agg_date next_batch] in H.
+Tactic Notation "scbn" "in" "*" :=
+  cbn [set fst snd batches updates groups ancestors marks jobs parents user_res cancellable staging attempts insts
+       attempt_res agg_job agg_group agg_bp agg_date next_batch] in *.
 
 (* ------------------------------------------------------------------ same_core *)
 
@@ -507,19 +513,20 @@ Lemma finish_groups_jobs s b g : jobs (finish_groups s b g) = jobs s.
 Proof. reflexivity. Qed.
 
 Lemma mc_finish_jobs (P : job -> Prop) l0 s3 x b j a ns total :
-  (forall y, idle y -> P y) -> terminal ns = true -> In x (jobs s3) ->
+  (forall y, idle y -> P y) -> (forall att, P (x <| j_state := ns |> <| j_attempt := att |>)) -> In x (jobs s3) ->
   jrel P l0 (jobs s3) -> jrel P l0 (jobs (mc_finish s3 x b j a ns total)).
 Proof.
-  intros HP T Hx R. unfold mc_finish. cbv zeta. apply release_children_jobs; [exact HP|].
+  intros HP Pn Hx R. unfold mc_finish. cbv zeta. apply release_children_jobs; [exact HP|].
   rewrite finish_groups_jobs.
   match goal with |- context [if ?c then _ else _] => destruct c end; scbn;
-    (apply jrel_update_job; [exact R | apply HP; split; cbn; intros E; rewrite E in T; discriminate | exists x; split; [right; exact Hx | solve_static]]).
+    (apply jrel_update_job; [exact R | apply Pn | exists x; split; [right; exact Hx | solve_static]]).
 Qed.
 
-Lemma do_mark_complete_jobs s b j a i ns st en rs :
-  terminal ns = true -> jrel idle (jobs s) (jobs (fst (do_mark_complete s b j a i ns st en rs))).
+Lemma do_mark_complete_jobs (P : job -> Prop) s b j a i ns st en rs :
+  (forall y, idle y -> P y) -> (forall x att, P (x <| j_state := ns |> <| j_attempt := att |>)) ->
+  jrel P (jobs s) (jobs (fst (do_mark_complete s b j a i ns st en rs))).
 Proof.
-  intros T. destruct (do_mark_complete_shape s b j a i ns st en rs) as [C | (x & s3 & Fx & C & _ & E)].
+  intros HP Pn. destruct (do_mark_complete_shape s b j a i ns st en rs) as [C | (x & s3 & Fx & C & _ & E)].
   - rewrite (sc_jobs _ _ C). apply jrel_refl.
   - rewrite E. rewrite <- (sc_jobs _ _ C) at 1. apply mc_finish_jobs; auto using jrel_refl.
     rewrite (sc_jobs _ _ C). apply find_jkey_sound in Fx. tauto.
@@ -592,28 +599,37 @@ Proof.
   destruct (find_group s b (j_group x)); [apply IH | auto].
 Qed.
 
+Lemma do_create_jobs_shape_res s b u user jss :
+  let r := do_create_jobs s b u user jss in
+  (fst r = s /\ (snd r <> ok [] \/ exists up, find_update s b u = Some up /\ insert_verdict s b (map fst (cj_specs b u up jss)) [] = 2)) \/
+  exists up bt, find_update s b u = Some up /\ find_batch s b = Some bt /\ u_committed up = false /\
+                insert_verdict s b (map fst (cj_specs b u up jss)) [] = 0 /\
+                r = (cj_insert s b (cj_specs b u up jss), ok []).
+Proof.
+  cbv zeta. unfold do_create_jobs.
+  destruct (is_nil jss); [left; split; [reflexivity | left; discriminate]|].
+  destruct (find_update s b u) as [up|]; [|left; split; [reflexivity | left; discriminate]].
+  destruct (find_batch s b) as [bt|]; [|left; split; [reflexivity | left; discriminate]].
+  match goal with |- context [if ?c then _ else _] => destruct c end; [left; split; [reflexivity | left; discriminate]|].
+  destruct (u_committed up) eqn:Cm; [left; split; [reflexivity | left; discriminate]|].
+  cbv zeta. destruct jss as [|j0 jss']; [left; split; [reflexivity | left; discriminate]|]. set (jss := j0 :: jss') in *.
+  match goal with |- context [if ?c then _ else _] => destruct c end; [left; split; [reflexivity | left; discriminate]|].
+  match goal with |- context [if ?c then _ else _] => destruct c end; [left; split; [reflexivity | left; discriminate]|].
+  fold (cj_specs b u up jss).
+  pose proof (insert_verdict_range s b (map fst (cj_specs b u up jss)) []) as V. cbv zeta in V.
+  destruct V as [V|[V|[V|V]]]; rewrite V; try (left; split; [reflexivity | left; discriminate]).
+  - match goal with |- context [if ?c then _ else _] => destruct c end; [left; split; [reflexivity | left; discriminate]|].
+    right. exists up, bt. repeat split; auto.
+  - left. split; [reflexivity|]. right. exists up. auto.
+Qed.
+
 Lemma do_create_jobs_shape s b u user jss :
   let r := do_create_jobs s b u user jss in
   fst r = s \/
   exists up bt, find_update s b u = Some up /\ find_batch s b = Some bt /\ u_committed up = false /\
                 insert_verdict s b (map fst (cj_specs b u up jss)) [] = 0 /\
                 r = (cj_insert s b (cj_specs b u up jss), ok []).
-Proof.
-  cbv zeta. unfold do_create_jobs.
-  destruct (is_nil jss); [left; reflexivity|].
-  destruct (find_update s b u) as [up|]; [|left; reflexivity].
-  destruct (find_batch s b) as [bt|]; [|left; reflexivity].
-  match goal with |- context [if ?c then _ else _] => destruct c end; [left; reflexivity|].
-  destruct (u_committed up) eqn:Cm; [left; reflexivity|].
-  cbv zeta. destruct jss as [|j0 jss']; [left; reflexivity|]. set (jss := j0 :: jss') in *.
-  match goal with |- context [if ?c then _ else _] => destruct c end; [left; reflexivity|].
-  match goal with |- context [if ?c then _ else _] => destruct c end; [left; reflexivity|].
-  fold (cj_specs b u up jss).
-  pose proof (insert_verdict_range s b (map fst (cj_specs b u up jss)) []) as V. cbv zeta in V.
-  destruct V as [V|[V|[V|V]]]; rewrite V; try (left; reflexivity).
-  match goal with |- context [if ?c then _ else _] => destruct c end; [left; reflexivity|].
-  right. exists up, bt. repeat split; auto.
-Qed.
+Proof. cbv zeta. destruct (do_create_jobs_shape_res s b u user jss) as [[E _] | H]; [left; exact E | right; exact H]. Qed.
 
 Lemma stage_job_jobs s x : jobs (stage_job s x) = jobs s.
 Proof. reflexivity. Qed.
@@ -782,4 +798,240 @@ Proof.
   - apply same_core_tree, do_billing_update_core.
   - unfold do_cleanup_staging. tree.
   - unfold do_cleanup_cancellable. tree.
+Qed.
+
+(* ------------------------------------------------------------------ the transactions that add batches / updates / groups / marks *)
+
+(** [grow s s']: marks, ancestor rows, groups, batches and updates are only ever appended. *)
+Record grow (s s' : state) : Prop := mk_grow {
+  gr_marks : exists m, marks s' = marks s ++ m;
+  gr_ancestors : exists a, ancestors s' = ancestors s ++ a;
+  gr_groups : exists g, map gk (groups s') = map gk (groups s) ++ g;
+  gr_batches : exists b, map bkey (batches s') = map bkey (batches s) ++ b;
+  gr_updates : exists u, map ukey (updates s') = map ukey (updates s) ++ u;
+  gr_next_batch : next_batch s <= next_batch s' }.
+
+Lemma same_tree_grow s s' : same_tree s s' -> grow s s'.
+Proof. intros []. constructor; try (exists []; rewrite app_nil_r; assumption). lia. Qed.
+
+Lemma grow_refl s : grow s s.
+Proof. apply same_tree_grow, same_tree_refl. Qed.
+
+Lemma grow_trans s1 s2 s3 : grow s1 s2 -> grow s2 s3 -> grow s1 s3.
+Proof.
+  intros [(m1 & M1) (a1 & A1) (g1 & G1) (b1 & B1) (u1 & U1) N1] [(m2 & M2) (a2 & A2) (g2 & G2) (b2 & B2) (u2 & U2) N2].
+  constructor; [exists (m1 ++ m2) | exists (a1 ++ a2) | exists (g1 ++ g2) | exists (b1 ++ b2) | exists (u1 ++ u2) | lia];
+    rewrite app_assoc; congruence.
+Qed.
+
+Lemma create_group_rows_grow s b g upd p root : grow s (create_group_rows s b g upd p root).
+Proof.
+  unfold create_group_rows. constructor; scbn; try (exists []; rewrite app_nil_r; reflexivity).
+  - eexists; reflexivity.
+  - rewrite map_app. eexists; reflexivity.
+  - lia.
+Qed.
+
+Lemma cog_fold_none b u sg l : fold_left (create_one_group b u sg) l None = None.
+Proof. induction l as [|x l IH]; cbn [fold_left create_one_group]; auto. Qed.
+
+Lemma cog_fold_rel (R : state -> state -> Prop) b u sg :
+  (forall st, R st st) -> (forall s1 s2 s3, R s1 s2 -> R s2 s3 -> R s1 s3) ->
+  (forall st gs st', create_one_group b u sg (Some st) gs = Some st' -> R st st') ->
+  forall l s s', fold_left (create_one_group b u sg) l (Some s) = Some s' -> R s s'.
+Proof.
+  intros Hr Ht H. induction l as [|x l IH]; intros s s' E; cbn [fold_left] in E.
+  - injection E as <-. apply Hr.
+  - destruct (create_one_group b u sg (Some s) x) as [st|] eqn:C; [|rewrite cog_fold_none in E; discriminate].
+    eapply Ht; [eapply H; exact C | apply IH; exact E].
+Qed.
+
+(* one accepted group of a bunch *)
+Lemma create_one_group_some b u sg st gs st' :
+  create_one_group b u sg (Some st) gs = Some st' ->
+  let g := sg + gs_id gs - 1 in
+  let parent := match gs_parent_abs gs with Some p => p | None => sg + gs_parent_rel gs - 1 end in
+  group_cancelled st b parent = false /\ find_group st b g = None /\ parent < g /\
+  st' = create_group_rows st b g (Some u) parent false.
+Proof.
+  cbv zeta. unfold create_one_group.
+  destruct (group_cancelled st b _) eqn:Gc; [discriminate|].
+  destruct (find_group st b _) eqn:Fg; [discriminate|].
+  match goal with |- context [if negb ?c then _ else _] => destruct c eqn:Lt end; cbn [negb]; [|discriminate].
+  match goal with |- context [if ?c then _ else _] => destruct c end; [discriminate|].
+  intros E; injection E as <-. repeat split; auto. lia.
+Qed.
+
+Lemma do_create_groups_shape s b u user gss :
+  let r := do_create_groups s b u user gss in
+  (fst r = s /\ snd r <> ok []) \/
+  exists up, find_update s b u = Some up /\ fold_left (create_one_group b u (u_start_group up)) gss (Some s) = Some (fst r) /\ snd r = ok [] /\
+             find_batch s b <> None.
+Proof.
+  cbv zeta. unfold do_create_groups.
+  destruct (is_nil gss); [left; split; [reflexivity | discriminate]|].
+  destruct (find_update s b u) as [up|]; [|left; split; [reflexivity | discriminate]].
+  destruct (find_batch s b) as [bt|]; [|left; split; [reflexivity | discriminate]].
+  match goal with |- context [if ?c then _ else _] => destruct c end; [left; split; [reflexivity | discriminate]|].
+  destruct (u_committed up); [left; split; [reflexivity | discriminate]|].
+  destruct gss as [|g0 gss']; [left; split; [reflexivity | discriminate]|].
+  match goal with |- context [if ?c then _ else _] => destruct c end; [left; split; [reflexivity | discriminate]|].
+  match goal with |- context [match ?c with Some _ => _ | None => _ end] => destruct c as [s'|] eqn:F end; [|left; split; [reflexivity | discriminate]].
+  right. exists up. cbn [fst snd]. repeat split; auto. discriminate.
+Qed.
+
+Lemma do_create_groups_grow s b u user gss : grow s (fst (do_create_groups s b u user gss)).
+Proof.
+  destruct (do_create_groups_shape s b u user gss) as [[E _] | (up & _ & F & _ & _)]; [rewrite E; apply grow_refl|].
+  eapply (cog_fold_rel grow); [apply grow_refl | apply grow_trans | | exact F].
+  intros st gs st' C. apply create_one_group_some in C. cbv zeta in C. destruct C as (_ & _ & _ & ->). apply create_group_rows_grow.
+Qed.
+
+Lemma cancel_proc_marks s b g : marks (cancel_proc s b g) = marks s ++ (if group_cancelled s b g then [] else [(b, g)]).
+Proof.
+  unfold cancel_proc. destruct (group_cancelled s b g); [rewrite app_nil_r; reflexivity|]. cbv zeta. scbn.
+  rewrite fold_keeps; [reflexivity|]. intros st kv. repeat dmatch; reflexivity.
+Qed.
+
+Section CancelFrame.
+  Variables (s : state) (b g : Z).
+  Let s' := cancel_proc s b g.
+  Ltac cp := subst s'; unfold cancel_proc; destruct (group_cancelled s b g); [reflexivity|]; cbv zeta; scbn;
+             (rewrite fold_keeps; [reflexivity|]; intros st kv; repeat dmatch; reflexivity).
+  Lemma cancel_proc_batches : batches s' = batches s. Proof. cp. Qed.
+  Lemma cancel_proc_updates : updates s' = updates s. Proof. cp. Qed.
+  Lemma cancel_proc_groups : groups s' = groups s. Proof. cp. Qed.
+  Lemma cancel_proc_ancestors : ancestors s' = ancestors s. Proof. cp. Qed.
+  Lemma cancel_proc_jobs : jobs s' = jobs s. Proof. cp. Qed.
+  Lemma cancel_proc_parents : parents s' = parents s. Proof. cp. Qed.
+  Lemma cancel_proc_staging : staging s' = staging s. Proof. cp. Qed.
+  Lemma cancel_proc_attempts : attempts s' = attempts s. Proof. cp. Qed.
+  Lemma cancel_proc_insts : insts s' = insts s. Proof. cp. Qed.
+  Lemma cancel_proc_attempt_res : attempt_res s' = attempt_res s. Proof. cp. Qed.
+  Lemma cancel_proc_agg_job : agg_job s' = agg_job s. Proof. cp. Qed.
+  Lemma cancel_proc_agg_group : agg_group s' = agg_group s. Proof. cp. Qed.
+  Lemma cancel_proc_agg_bp : agg_bp s' = agg_bp s. Proof. cp. Qed.
+  Lemma cancel_proc_agg_date : agg_date s' = agg_date s. Proof. cp. Qed.
+  Lemma cancel_proc_next_batch : next_batch s' = next_batch s. Proof. cp. Qed.
+End CancelFrame.
+
+Lemma cancel_proc_grow s b g : grow s (cancel_proc s b g).
+Proof.
+  constructor.
+  - eexists. apply cancel_proc_marks.
+  - exists []. rewrite app_nil_r, cancel_proc_ancestors. reflexivity.
+  - exists []. rewrite app_nil_r, cancel_proc_groups. reflexivity.
+  - exists []. rewrite app_nil_r, cancel_proc_batches. reflexivity.
+  - exists []. rewrite app_nil_r, cancel_proc_updates. reflexivity.
+  - rewrite cancel_proc_next_batch. lia.
+Qed.
+
+Lemma step_grow s o : grow s (fst (step s o)).
+Proof.
+  pose proof (step_same_tree s o) as T.
+  destruct o; try (apply same_tree_grow; exact T); cbn [step]; clear T.
+  - unfold do_create_batch. destruct (negb member); [apply grow_refl|].
+    match goal with |- context [match ?c with Some _ => _ | None => _ end] => destruct c end; [apply grow_refl|]. cbv zeta. cbn [fst].
+    eapply grow_trans; [|apply create_group_rows_grow].
+    constructor; scbn; try (exists []; rewrite app_nil_r; reflexivity); try lia. rewrite map_app. eexists; reflexivity.
+  - unfold do_create_update. repeat (dmatch; try apply grow_refl).
+    all: cbn [fst]; constructor; scbn; try (exists []; rewrite app_nil_r; reflexivity); try lia; rewrite map_app; eexists; reflexivity.
+  - apply do_create_groups_grow.
+  - unfold do_cancel_group. repeat (dmatch; try apply grow_refl). all: cbn [fst]; apply cancel_proc_grow.
+  - unfold do_delete_batch. repeat (dmatch; try apply grow_refl).
+    all: cbn [fst]; (eapply grow_trans; [apply cancel_proc_grow|]); apply same_tree_grow; apply same_tree_batches_map; key_side.
+Qed.
+
+(* ------------------------------------------------------------------ the jobs table along any transaction *)
+
+Lemma step_jobs_same s o :
+  match o with
+  | CreateJobs _ _ _ _ | Commit _ _ _ | DeactivateInstance _ _ _ | ScheduleJob _ _ _ _ | UnscheduleJob _ _ _ _ _ _
+  | MarkCreating _ _ _ _ _ | MarkStarted _ _ _ _ _ | MarkComplete _ _ _ _ _ _ _ _ => True
+  | _ => jobs (fst (step s o)) = jobs s
+  end.
+Proof.
+  destruct o; try exact I; cbn [step].
+  - unfold do_create_batch, create_group_rows. repeat (dmatch; try reflexivity).
+  - unfold do_create_update. repeat (dmatch; try reflexivity).
+  - destruct (do_create_groups_shape s b u user gs) as [[E _] | (up & _ & F & _ & _)]; [rewrite E; reflexivity|].
+    eapply (cog_fold_rel (fun st st' => jobs st' = jobs st)); [reflexivity | intros; congruence | | exact F].
+    intros st g st' C. apply create_one_group_some in C. cbv zeta in C. destruct C as (_ & _ & _ & ->). reflexivity.
+  - unfold do_cancel_group. repeat (dmatch; try reflexivity). all: cbn [fst]; apply cancel_proc_jobs.
+  - unfold do_delete_batch. repeat (dmatch; try reflexivity). all: cbn [fst]; scbn; apply cancel_proc_jobs.
+  - apply (sc_jobs _ _ (do_new_instance_core s name ic cores pool)).
+  - apply (sc_jobs _ _ (do_activate_core s name)).
+  - apply (sc_jobs _ _ (do_mark_deleted_core s name)).
+  - apply (sc_jobs _ _ (do_add_resources_core s b j att rs)).
+  - apply (sc_jobs _ _ (do_billing_update_core s time atts)).
+  - reflexivity.
+  - reflexivity.
+Qed.
+
+Definition op_terminal (o : op) : Prop :=
+  match o with MarkComplete _ _ _ _ ns _ _ _ => terminal ns = true | _ => True end.
+
+Lemma legal_op_terminal s o : legal s o -> op_terminal o.
+Proof.
+  destruct o; try exact (fun _ => I). unfold legal, legalb, op_terminal. intros H.
+  repeat (apply andb_true_iff in H; destruct H as [H ?]). assumption.
+Qed.
+
+(** a job may enter Creating / Running only if the row that was there was runnable (always_run, or neither itself nor a group above it cancelled) *)
+Definition entered_ok (s : state) (y : job) : Prop :=
+  idle y \/ exists x, find_job s (j_batch y) (j_id y) = Some x /\ runnable s x /\ static_eq x y.
+
+Definition fresh_job (s : state) (y : job) : Prop :=
+  (j_state y = Ready \/ j_state y = Pending) /\ find_job s (j_batch y) (j_id y) = None /\
+  group_cancelled s (j_batch y) (j_group y) = false /\ find_group s (j_batch y) (j_group y) <> None.
+
+Definition entered_ok_if (s : state) (o : op) (y : job) : Prop := op_terminal o -> entered_ok s y.
+
+Theorem step_jobs s o :
+  exists l new, jobs (fst (step s o)) = l ++ new /\ jrel (entered_ok_if s o) (jobs s) l /\
+                Forall (fresh_job s) new /\ NoDup (map jk new).
+Proof.
+  assert (Same : jobs (fst (step s o)) = jobs s ->
+                 exists l new, jobs (fst (step s o)) = l ++ new /\ jrel (entered_ok_if s o) (jobs s) l /\ Forall (fresh_job s) new /\ NoDup (map jk new)).
+  { intros E. exists (jobs s), []. rewrite E, app_nil_r. split; [reflexivity|]. split; [apply jrel_refl|]. split; constructor. }
+  assert (Idle : jrel (entered_ok_if s o) (jobs s) (jobs (fst (step s o))) ->
+                 exists l new, jobs (fst (step s o)) = l ++ new /\ jrel (entered_ok_if s o) (jobs s) l /\ Forall (fresh_job s) new /\ NoDup (map jk new)).
+  { intros R. exists (jobs (fst (step s o))), []. rewrite app_nil_r. split; [reflexivity|]. split; [exact R|split; constructor]. }
+  assert (IdleP : forall y, idle y -> entered_ok_if s o y) by (intros y Hy _; left; exact Hy).
+  assert (Upd : forall x s1 n, find_job s (j_batch n) (j_id n) = Some x -> same_core s s1 -> runnable s x -> static_eq x n ->
+                 fst (step s o) = update_job s1 x n ->
+                 exists l new, jobs (fst (step s o)) = l ++ new /\ jrel (entered_ok_if s o) (jobs s) l /\ Forall (fresh_job s) new /\ NoDup (map jk new)).
+  { intros x s1 n Fx C Rn Sx E. apply Idle.
+    rewrite E. rewrite <- (sc_jobs _ _ C) at 1. apply jrel_update_job; [apply jrel_refl | |].
+    - intros _. right. exists x. auto.
+    - exists x. split; [|exact Sx]. left. rewrite (sc_jobs _ _ C). apply find_jkey_sound in Fx. tauto. }
+  pose proof (step_jobs_same s o) as SJ.
+  destruct o; try (apply Same; exact SJ); clear SJ; cbn [step] in *.
+  - (* CreateJobs *)
+    destruct (do_create_jobs_shape s b u user js) as [E | (up & bt & Fu & Fb & Cm & V & E)].
+    + apply Same. cbn [step]. rewrite E. reflexivity.
+    + rewrite E. cbn [fst]. rewrite cj_insert_jobs. exists (jobs s), (map fst (cj_specs b u up js)).
+      split; [reflexivity|]. split; [apply jrel_refl|].
+      pose proof (fun x H => proj1 (cj_specs_batch b u up js x H)) as Hb.
+      destruct (insert_verdict_ok s b _ [] Hb V) as (F & ND). split.
+      * rewrite Forall_forall in *. intros y Hy. destruct (F y Hy) as (A1 & A2 & A3 & _).
+        destruct (cj_specs_batch b u up js y Hy) as (B1 & _ & B3). unfold fresh_job. rewrite B1. auto.
+      * assert (Ek : map jk (map fst (cj_specs b u up js)) = map (fun i => (b, i)) (map j_id (map fst (cj_specs b u up js)))).
+        { rewrite !map_map. apply map_ext_in. intros [y ps] Hy. cbn [fst]. unfold jk. f_equal. apply Hb. apply in_map_iff. exists (y, ps). auto. }
+        rewrite Ek. clear Ek F. induction ND as [|i l Hn ND IH]; cbn [map]; constructor; [|exact IH].
+        intros Hin. apply in_map_iff in Hin. destruct Hin as (i' & Ei & Hi'). injection Ei as ->. contradiction.
+  - apply Idle. eapply jrel_weaken; [exact IdleP | apply do_commit_jobs].
+  - apply Idle. eapply jrel_weaken; [exact IdleP | apply do_deactivate_jobs].
+  - destruct (do_schedule_shape s b j att inst) as [C | (x & s1 & Fx & C & Rn & _ & E)]; [apply Same, (sc_jobs _ _ C)|].
+    pose proof (find_jkey_sound _ _ _ _ Fx) as (_ & B & J).
+    eapply (Upd x s1); [| exact C | exact Rn | | exact E]; [cbn; rewrite B, J; exact Fx | solve_static].
+  - apply Idle. eapply jrel_weaken; [exact IdleP | apply do_unschedule_jobs].
+  - destruct (do_mcs_shape true s b j att inst time) as [C | (x & s1 & Fx & C & Rn & _ & E)]; [apply Same, (sc_jobs _ _ C)|].
+    pose proof (find_jkey_sound _ _ _ _ Fx) as (_ & B & J).
+    eapply (Upd x s1); [| exact C | exact Rn | | exact E]; [cbn; rewrite B, J; exact Fx | solve_static].
+  - destruct (do_mcs_shape false s b j att inst time) as [C | (x & s1 & Fx & C & Rn & _ & E)]; [apply Same, (sc_jobs _ _ C)|].
+    pose proof (find_jkey_sound _ _ _ _ Fx) as (_ & B & J).
+    eapply (Upd x s1); [| exact C | exact Rn | | exact E]; [cbn; rewrite B, J; exact Fx | solve_static].
+  - apply Idle. apply do_mark_complete_jobs; [exact IdleP|].
+    intros x a T. left. unfold op_terminal in T. split; cbn; intros E; rewrite E in T; discriminate.
 Qed.
